@@ -394,7 +394,11 @@ class InjKeyboardInterrupt(KeyboardInterrupt, Injected):
     pass
 
 
-INJ = {"o": InjOSError, "e": InjTypeError, "b": InjKeyboardInterrupt}
+class InjPermissionError(PermissionError, Injected):
+    """an OSError of a SPECIFIC kind (code that special-cases PermissionError / FileExistsError ... takes another path)"""
+
+
+INJ = {"o": InjOSError, "e": InjTypeError, "b": InjKeyboardInterrupt, "p": InjPermissionError}
 DIE_CODE = 66
 
 
@@ -465,13 +469,29 @@ class Recorder:
             return self._op("remove", lambda: self._orig["remove"](path, *a, **k))
         return self._orig["remove"](path, *a, **k)
 
+    def rename(self, src, dst, *a, **k):
+        # the unchanged library never calls os.rename / os.unlink; a change that does gets them counted (and faulted) too
+        if self.mine(src):
+            self.paths.append(("rename", os.fspath(src), os.fspath(dst)))
+            return self._op("rename", lambda: self._orig["rename"](src, dst, *a, **k))
+        return self._orig["rename"](src, dst, *a, **k)
+
+    def unlink(self, path, *a, **k):
+        if self.mine(path):
+            self.paths.append(("remove", os.fspath(path)))
+            return self._op("remove", lambda: self._orig["unlink"](path, *a, **k))
+        return self._orig["unlink"](path, *a, **k)
+
     def __enter__(self):
-        self._orig = {"open": builtins.open, "replace": os.replace, "remove": os.remove}
+        self._orig = {"open": builtins.open, "replace": os.replace, "remove": os.remove, "rename": os.rename,
+                      "unlink": os.unlink}
         builtins.open, os.replace, os.remove = self.open, self.replace, self.remove
+        os.rename, os.unlink = self.rename, self.unlink
         return self
 
     def __exit__(self, *a):
         builtins.open, os.replace, os.remove = self._orig["open"], self._orig["replace"], self._orig["remove"]
+        os.rename, os.unlink = self._orig["rename"], self._orig["unlink"]
         return False
 
 
